@@ -151,7 +151,7 @@ P('C05', claimed=True, level='other',
   unreached=['all thread interleavings / wake-up latencies (sampled with injected 0-20 ms jitter)'])
 
 P('C06', claimed=True, level='other',
-  contracts=['base_osclib', 'base_netaddr', 'base_oscbuild', 'base_osclib_parse'], drivers=['vf.drivers.C06'],
+  contracts=['base_osclib', 'base_netaddr', 'base_oscbuild', 'base_osclib_parse', 'base_oscmsgbuild'], drivers=['vf.drivers.C06'],
   level_text=('Size and refusal laws of the OSC encoders (4-byte alignment, utf-8 length + 1..4 NULs, '
               'blob size prefix + padding with its loop invariant, int32/float32/timetag ranges, NUL '
               'refused) are discharged on the real functions for all inputs, as are the sizing theorem for '
@@ -165,7 +165,11 @@ P('C06', claimed=True, level='other',
               'same send time goes into every recursive call, and the result is build(). NetAddr._clump_bundle '
               '(loop invariant, any number of elements): every element goes into exactly one clump, in order; a '
               'clump is closed iff the next element would take it to the limit, so an open clump stays below the '
-              'limit or holds the single element that fits nowhere. Conformance to OSC 1.0, '
+              'limit or holds the single element that fits nowhere. The low-level builders: OscMessageBuilder.build '
+              '(the datagram is, in this order, the address string, the tag string of the arguments, and for EVERY argument '
+              'exactly the encoding its tag names of ITS value appended at the end - nothing for T F [ ] N; inductive model of '
+              'the datagram as the list of its pieces), _get_arg_type (tag by dynamic type), OscBundleBuilder.build (#bundle, '
+              'time tag, then every element as size + bytes in order). Conformance to OSC 1.0, '
               'round trips, the sizing theorem (prediction >= real size) and clumping end-to-end are decided by a '
               'bounded run-time contract against an independent OSC 1.0 codec (all argument lists of '
               'length <= 3 over a 30-value alphabet, nested to depth 4, sizes straddling 65504).'),
